@@ -116,6 +116,20 @@ fn make_plan(prop: &str, tier: Tier, base: u64, index: u64, chunk: u64) -> Optio
 
 pub static LAST_PANIC: std::sync::Mutex<Option<String>> = std::sync::Mutex::new(None);
 
+/// A simulated thread died from a panic nobody caught. If the panic originated outside the
+/// harness and the simulator (i.e. in the code under test or something it called: the queue's
+/// writer thread, a `join().unwrap()` in a destructor, ...) it is a violation -- "does not panic"
+/// is part of every sink property -- otherwise it is a harness bug.
+pub fn classify_uncaught_panic(msg: &str) -> Result<crate::framework::Violation, String> {
+    let loc = LAST_PANIC.lock().ok().and_then(|g| g.clone()).unwrap_or_default();
+    let ours = loc.starts_with("harness/") || loc.contains("/harness/src/") || loc.contains("detsim/src/") || loc.is_empty();
+    if ours {
+        Err(format!("harness thread panicked: {msg} [{loc}]"))
+    } else {
+        Ok(crate::framework::Violation::new("panic", format!("the code under test panicked: {msg} [{loc}]")))
+    }
+}
+
 /// Run a scenario; a panic that escapes it (single-threaded scenarios run the code under test on
 /// this very thread) is a violation, not a harness crash.
 fn run_scenario(scen: &dyn Scenario, plan: &Value) -> Report {
@@ -454,6 +468,39 @@ fn spawn_worker(prop: &str, tier: Tier, base: u64, start: u64, count: u64, chunk
     Running { child, out, start, count, cpu }
 }
 
+/// A worker was killed by a signal somewhere in [start, start+count): find the run index that
+/// does it, by re-running sub-ranges in child processes (runs are independent of each other).
+fn locate_crash(prop: &str, tier: Tier, base: u64, start: u64, count: u64, chunk: u64, tmpdir: &Path) -> Option<u64> {
+    use std::os::unix::process::ExitStatusExt;
+    let crashes = |s: u64, c: u64| -> bool {
+        let out = tmpdir.join(format!("crash-{s}-{c}.json"));
+        let exe = std::env::current_exe().expect("current_exe");
+        let st = Command::new(exe)
+            .args(["worker", "--prop", prop, "--tier", tier.name(), "--seed", &base.to_string(), "--start", &s.to_string(), "--count", &c.to_string(), "--chunk", &chunk.to_string(), "--out", out.to_str().unwrap(), "--recheck", "0"])
+            .env("VERIF_WATCHDOG_S", "120")
+            .stdin(Stdio::null())
+            .stdout(Stdio::null())
+            .stderr(Stdio::null())
+            .status();
+        let _ = std::fs::remove_file(&out);
+        matches!(st, Ok(st) if st.signal().is_some())
+    };
+    let (mut lo, mut n) = (start, count);
+    if !crashes(lo, n) {
+        return None; // not reproducible in a fresh process
+    }
+    while n > 1 {
+        let half = n / 2;
+        if crashes(lo, half) {
+            n = half;
+        } else {
+            lo += half;
+            n -= half;
+        }
+    }
+    if crashes(lo, 1) { Some(lo) } else { None }
+}
+
 #[derive(Default)]
 struct Merged {
     done: u64,
@@ -612,8 +659,32 @@ fn check(args: &[String]) -> i32 {
                             let _ = std::fs::remove_file(&r.out);
                         }
                         None => {
-                            m.harness_errors.push(format!("worker for runs {}..{} died without a result ({status})", r.start, r.start + r.count));
-                            stop_at = Some(0);
+                            use std::os::unix::process::ExitStatusExt;
+                            let located = match status.signal() {
+                                // SIGKILL is ours / the environment's; everything else came from inside
+                                Some(sig) if sig != 9 => locate_crash(&prop, tier, base, r.start, r.count, budget.chunk, &tmpdir).map(|i| (i, sig)),
+                                _ => None,
+                            };
+                            match located {
+                                Some((idx, sig)) => {
+                                    if let Some((which, plan)) = make_plan(&prop, tier, base, idx, budget.chunk) {
+                                        let scen_name = registry::scenarios(&prop)[which].name();
+                                        let replay_path = root().join("replays").join(format!("{}-{}-{:016x}.json", prop, scen_name, run_seed(base, &prop, idx)));
+                                        let msg = format!("the worker process was terminated by signal {sig} while executing this run (an abort: typically a panic while already panicking, e.g. in a destructor of the code under test)");
+                                        write_json(&replay_path, &json!({
+                                            "property": prop, "scenario": scen_name, "run_index": idx,
+                                            "violation": {"class": "process_abort", "message": msg},
+                                            "plan": plan,
+                                        }));
+                                        m.violations.push(json!({"index": idx, "scenario": scen_name, "class": "process_abort", "message": msg, "replay": replay_path.to_string_lossy()}));
+                                        stop_at = Some(stop_at.map(|s| s.min(idx)).unwrap_or(idx));
+                                    }
+                                }
+                                None => {
+                                    m.harness_errors.push(format!("worker for runs {}..{} died without a result ({status})", r.start, r.start + r.count));
+                                    stop_at = Some(0);
+                                }
+                            }
                         }
                     }
                 }
@@ -760,10 +831,17 @@ impl Tester {
             .stderr(Stdio::null())
             .spawn()
             .ok()?;
-        let _ = child.wait();
+        let status = child.wait().ok();
         let res = read_json(&e);
         let _ = std::fs::remove_file(&p);
         let _ = std::fs::remove_file(&e);
+        if res.is_none() && self.class == "process_abort" {
+            use std::os::unix::process::ExitStatusExt;
+            if let Some(sig) = status.and_then(|s| s.signal()) {
+                // the candidate took the whole process down again: same class
+                return Some(json!({"class": "process_abort", "message": format!("the process was terminated by signal {sig} while executing this run"), "outcome": {"hash": "abort"}, "history": Value::Null, "decisions": []}));
+            }
+        }
         let res = res?;
         if res.get("class").and_then(|c| c.as_str()) == Some(self.class.as_str()) {
             Some(res)
@@ -775,7 +853,7 @@ impl Tester {
 
 const SKIP_KEYS: [&str; 10] = ["sched", "scenario", "property", "run_index", "run_seed", "base_seed", "tier", "subscriber", "decisions", "trace"];
 
-const NO_SHRINK_INT_KEYS: [&str; 10] = ["obj", "objs", "id", "slot", "tag", "thread", "victim", "slow", "capacity", "target"];
+const NO_SHRINK_INT_KEYS: [&str; 12] = ["obj", "objs", "id", "slot", "tag", "thread", "victim", "slow", "capacity", "target", "shutdown_timeout_ns", "ns"];
 
 fn collect_paths(v: &Value, path: &mut Vec<String>, arrays: &mut Vec<Vec<String>>, ints: &mut Vec<Vec<String>>, top: bool) {
     match v {
